@@ -8,6 +8,7 @@ from ..flow import (SeqFlow, RETURN, guards_at, flatten_guards,
                     handler_names)
 from ..constfold import try_fold
 from ..mutate import Mutant, in_func
+from .. import guardspec
 
 ID = 'C09'
 EXPLANATION = (
@@ -684,6 +685,28 @@ def rule_r5(prog, res):
         res.finding('R5', 'WsgiApplication.handle_error|status-from-fault',
                     herr.where, 'handle_error does not derive the status from '
                     'the fault it was given')
+    # the status comes from the protocol object that serialises this
+    # context's error (ctx.out_protocol in ServerBase.get_out_string*), not
+    # from the application-wide default
+    ctxp = [p_ for p_ in herr.params() if p_ != 'self'][:1]
+    for x in calls_in(herr.node):
+        if call_name(x) != 'fault_to_http_response_code' or not isinstance(
+                x.func, ast.Attribute):
+            continue
+        recv = unparse(x.func.value)
+        ok = bool(ctxp) and recv == '%s.out_protocol' % ctxp[0]
+        where = '%s:%d' % (herr.module.relpath, x.lineno)
+        res.ob('R5', where, 'handle_error: status decided by %s' % recv,
+               'ok' if ok else 'VIOLATED')
+        if not ok:
+            res.finding('R5', 'WsgiApplication.handle_error|status-protocol|'
+                        '%s' % recv, where, 'the HTTP status of the fault is '
+                        'decided by %s while the body is written by %s.'
+                        'out_protocol: when the context carries its own out '
+                        'protocol (per-method or negotiated protocol) status '
+                        'line and body follow different rules, e.g. a SOAP '
+                        'fault body sent with a 4xx HttpRpc status' % (
+                            recv, ctxp[0] if ctxp else 'ctx'))
     # and start_response uses that code
     srs = [x for x in calls_in(herr.node) if call_name(x) == 'start_response']
     for sr in srs:
@@ -839,6 +862,44 @@ def rule_r8(prog, res):
     res.floor('R8', 'root_dict_to_etree call sites', n, 2)
 
 
+# ------------------------------------------------------------------- R9
+def rule_r9(prog, res):
+    res.rule('R9', 'fault constructors format their message with a tuple '
+             'operand and writers of fault detail keep falsy values')
+    m = prog.module('spyne.error')
+    n = 0
+    for f in m.functions.values():
+        if f.name != '__init__':
+            continue
+        params = set(f.params())
+        for b in walk_no_defs(f.node):
+            if not (isinstance(b, ast.BinOp) and isinstance(b.op, ast.Mod)):
+                continue
+            n += 1
+            where = '%s:%d' % (m.relpath, b.lineno)
+            bare = isinstance(b.right, ast.Name) and b.right.id in params
+            res.ob('R9', where, '%s: %s' % (f.qualname, unparse(b)[:60]),
+                   'VIOLATED' if bare else 'ok')
+            if bare:
+                res.finding('R9', '%s|bare-format-operand|%s' % (
+                    f.qualname, b.right.id), where,
+                    '%s formats its message with "%% %s": when the caller '
+                    'passes a tuple (a composite key) the %% operator '
+                    'spreads it over the placeholders and raises TypeError '
+                    'instead of constructing the fault, which the server '
+                    'then reports as an internal error' % (
+                        f.qualname, b.right.id))
+    res.floor('R9', 'formatted fault messages in spyne.error', n, 3)
+    ec = prog.module('spyne.util.etreeconv')
+    funcs = [ec.functions[k] for k in ('dict_to_etree', 'root_dict_to_etree')
+             if k in ec.functions]
+    k = guardspec.presence_rule(
+        res, 'R9', funcs, {'v', 'val', 'value', 'e', 'a', 'd'},
+        'falsy scalars in a fault detail dict (0, False, "") lose their '
+        'text and arrive as empty elements')
+    res.floor('R9', 'None tests in the detail converter', k, 1)
+
+
 def run(prog, res, tier):
     res.run_rule(rule_r8, prog, res)
     res.run_rule(rule_r1, prog, res, tier)
@@ -847,6 +908,7 @@ def run(prog, res, tier):
     res.run_rule(rule_r4_r7, prog, res, tier)
     res.run_rule(rule_r5, prog, res)
     res.run_rule(rule_r6, prog, res)
+    res.run_rule(rule_r9, prog, res)
 
 
 _A = 'spyne/application.py'
@@ -857,6 +919,22 @@ _H = 'spyne/protocol/dictdoc/hier.py'
 _F = 'spyne/model/fault.py'
 
 MUTANTS = [
+    Mutant('status-from-app-protocol', 'R5', 'fire', _W,
+           in_func('WsgiApplication.handle_error',
+                   "p_ctx.out_protocol.fault_to_http_response_code(error)",
+                   "self.app.out_protocol.fault_to_http_response_code(error)"),
+           'status-protocol'),
+    Mutant('not-found-bare-format', 'R9', 'fire', 'spyne/error.py',
+           in_func('ResourceNotFoundError.__init__',
+                   "fault_string % (fault_object,)",
+                   "fault_string % fault_object"), 'bare-format-operand'),
+    Mutant('not-found-format-local', 'R9', 'benign', 'spyne/error.py',
+           in_func('ResourceNotFoundError.__init__',
+                   "fault_string % (fault_object,)",
+                   "fault_string % ((fault_object,))"), None),
+    Mutant('detail-falsy-dropped', 'R9', 'fire', 'spyne/util/etreeconv.py',
+           in_func('dict_to_etree', "        if v is None:",
+                   "        if not v:"), 'truthiness'),
     Mutant('leak-str-e', 'R1', 'fire', _A,
            in_func('Application.process_request',
                    r"(logger_server\.critical\(e, \*\*\{'exc_info': 1\}\)\n\n"
